@@ -18,6 +18,157 @@ def Op.target : Op → Option Id
   | .setSerializer i _ => some i
   | _ => none
 
+/-- the node a call changes, which for json_pointer_set depends on the state -/
+def targetOf (s : State) : Op → Option Id
+  | .ptrSet root path _ => ptrParent s root path
+  | op => op.target
+
+theorem StepOk.with_ret {s s' : State} {t : Option Id} {r : Res} (h : StepOk s t s' r) (ret : Int)
+    (hret : 0 ≤ ret) : StepOk s t s' { r with ret := ret } :=
+  ⟨h.inv, h.next_le, h.log, h.deadNodup, h.deadWas, h.liveIff, h.frame,
+    fun hneg => absurd hneg (by simp only; omega), h.cbFinal⟩
+
+theorem mem_children_arr (xs : List (Option Id)) (idx : Nat) (c : Id) (h : xs.getD idx none = some c) :
+    c ∈ (Body.arr xs).children := by
+  simp only [Body.children, List.mem_filterMap, id]
+  refine ⟨some c, ?_, rfl⟩
+  rw [List.getD_eq_getElem?_getD] at h
+  cases hg : xs[idx]? with
+  | none => simp [hg] at h
+  | some x =>
+    simp [hg] at h
+    subst h
+    exact List.mem_of_getElem? hg
+
+theorem mem_children_obj (kvs : List (Key × Option Id)) (k : Key) (c : Id)
+    (h : findKey kvs k = some (some c)) : c ∈ (Body.obj kvs).children := by
+  induction kvs with
+  | nil => simp [findKey] at h
+  | cons a kvs ih =>
+    obtain ⟨k', v'⟩ := a
+    by_cases hk : k' = k
+    · simp only [findKey, hk, if_true, Option.some.injEq] at h
+      subst h
+      simp [Body.children]
+    · simp only [findKey, hk, if_false] at h
+      have := ih h
+      simp only [Body.children, List.mem_filterMap] at this ⊢
+      obtain ⟨x, hx, hx2⟩ := this
+      exact ⟨x, List.mem_cons_of_mem _ hx, hx2⟩
+
+/-- walking a pointer from a live node only meets live nodes -/
+theorem ptrWalk_live (s : State) (hs : Inv s) : ∀ (ts : List Bytes) (i p : Id),
+    (s.heap.get? i).isSome = true → ptrWalk s.heap (some i) ts = some (some p) →
+    (s.heap.get? p).isSome = true := by
+  intro ts
+  induction ts with
+  | nil => intro i p hl hw; simp [ptrWalk] at hw; subst hw; exact hl
+  | cons t ts ih =>
+    intro i p hl hw
+    obtain ⟨n, hn⟩ := Option.isSome_iff_exists.mp hl
+    simp only [ptrWalk, hn] at hw
+    have step : ∀ c, c ∈ n.body.children → ptrWalk s.heap (some c) ts = some (some p) →
+        (s.heap.get? p).isSome = true := by
+      intro c hc hw'
+      apply ih c p _ hw'
+      apply hs.h.closed c
+      have h1 := Heap.count_edges_of_get? s.heap i n hn c
+      have h2 : 0 < n.body.children.count c := List.count_pos_iff.mpr hc
+      simp only [List.count_nil, Nat.add_zero]; omega
+    cases hb : n.body with
+    | scalar k => simp [hb] at hw
+    | arr xs =>
+      simp only [hb] at hw
+      cases hv : validIndex t with
+      | none => simp [hv] at hw
+      | some idx =>
+        simp only [hv] at hw
+        by_cases hi : idx < xs.length
+        · rw [if_pos hi] at hw
+          cases hx : xs.getD idx none with
+          | none => rw [hx] at hw; cases ts <;> simp [ptrWalk] at hw
+          | some c =>
+            rw [hx] at hw
+            exact step c (by rw [hb]; exact mem_children_arr xs idx c hx) hw
+        · rw [if_neg hi] at hw; cases hw
+    | obj kvs =>
+      simp only [hb] at hw
+      cases hf : findKey kvs t with
+      | none => simp [hf] at hw
+      | some v =>
+        simp only [hf] at hw
+        cases v with
+        | none => cases ts <;> simp [ptrWalk] at hw
+        | some c => exact step c (by rw [hb]; exact mem_children_obj kvs t c hf) hw
+
+theorem ptrSet_spec (s : State) (hs : Inv s) (root : Id) (path : List Bytes) (v : Option Id) :
+    Good s (ptrParent s root path) (ptrSet s root path v) := by
+  have hgo : Good s (ptrParent s root path) (ptrSet.go s root path v) ∨ s.heap.get? root = none := by
+    cases hroot : s.heap.get? root with
+    | none => exact Or.inr rfl
+    | some nroot =>
+    left
+    unfold ptrSet.go
+    cases hl : path.getLast? with
+    | none =>
+      have hp : path = [] := List.getLast?_eq_none_iff.mp hl
+      subst hp
+      simp only [ptrParent]
+      rcases put_spec s hs root with ⟨why, hm⟩ | ⟨s', r, h1, h2, _⟩
+      · rw [hm]; exact Or.inl ⟨_, rfl⟩
+      · rw [h1]; exact Or.inr ⟨s', _, rfl, h2.with_ret 0 (Int.le_refl _)⟩
+    | some last =>
+      simp only
+      cases hpp : ptrParent s root path with
+      | none => exact Or.inr ⟨s, _, rfl, StepOk.noop s hs _ _⟩
+      | some p =>
+        simp only
+        have hplive : (s.heap.get? p).isSome = true := by
+          unfold ptrParent at hpp
+          cases path with
+          | nil => simp at hl
+          | cons t ts =>
+            simp only at hpp
+            cases hw : ptrWalk s.heap (some root) (t :: ts).dropLast with
+            | none => rw [hw] at hpp; cases hpp
+            | some o =>
+              rw [hw] at hpp
+              cases o with
+              | none => cases hpp
+              | some p' =>
+                simp at hpp
+                subst hpp
+                exact ptrWalk_live s hs _ root p' (by simp [hroot]) hw
+        obtain ⟨n, hn⟩ := Option.isSome_iff_exists.mp hplive
+        simp only [hn]
+        cases hb : n.body with
+        | scalar k => exact Or.inr ⟨s, _, rfl, StepOk.noop s hs _ _⟩
+        | arr xs =>
+          simp only
+          by_cases hd : last = [45]
+          · rw [if_pos hd]; exact arrStore_spec s hs p .add v
+          · rw [if_neg hd]
+            cases hv : validIndex last with
+            | none => exact Or.inr ⟨s, _, rfl, StepOk.noop s hs _ _⟩
+            | some idx => exact arrStore_spec s hs p (.put idx) v
+        | obj kvs => exact objAdd_spec s hs p last v false
+  unfold ptrSet
+  cases hroot : s.heap.get? root with
+  | none => exact Or.inl ⟨_, rfl⟩
+  | some nroot =>
+    simp only
+    have hgo' : Good s (ptrParent s root path) (ptrSet.go s root path v) := by
+      rcases hgo with h | h
+      · exact h
+      · rw [hroot] at h; cases h
+    cases v with
+    | none => exact hgo'
+    | some j =>
+      simp only
+      by_cases he : s.ext j = 0
+      · rw [if_pos he]; exact Or.inl ⟨_, rfl⟩
+      · rw [if_neg he]; exact hgo'
+
 theorem construct_spec (s : State) (hs : Inv s) (body : Body) (hb : body.children = []) :
     ∃ s' r, construct s body = .ok (s', r) ∧ StepOk s none s' r ∧ r.made = some s.next ∧ r.dead = [] ∧
       r.ret = 0 := by
@@ -46,7 +197,7 @@ theorem Good.of_construct {s : State} {x : Step (State × Res)}
 
 /-- every call, from every state satisfying the invariant: reported as misuse, or it succeeds with
 the uniform guarantees.  In particular no call faults. -/
-theorem step_spec (s : State) (hs : Inv s) (op : Op) : Good s op.target (step s op) := by
+theorem step_spec (s : State) (hs : Inv s) (op : Op) : Good s (targetOf s op) (step s op) := by
   cases op with
   | newObject => exact Good.of_construct (construct_spec s hs _ rfl)
   | newArray => exact Good.of_construct (construct_spec s hs _ rfl)
@@ -74,6 +225,7 @@ theorem step_spec (s : State) (hs : Inv s) (op : Op) : Good s op.target (step s 
     · exact Or.inl h
     · exact Or.inr ⟨s', r, h1, h2⟩
   | deepCopy src failAt => exact deepCopy_spec s hs src failAt
+  | ptrSet root path v => exact ptrSet_spec s hs root path v
 
 /-! ### histories -/
 
